@@ -13,7 +13,8 @@
 //	          list after the first Initialize, "none" never loads anything).  steps: set (Configure.Set(key, val)),
 //	          get (Configure.Get(key)), resolve (a tag text through the real ${} processor bound to this Configure):
 //	            mode proc : the processor is taken from processors.NewConfigQuoteAwarePostProcessors(), handed the
-//	                        Configure through PostProcessComponentFactory and called directly on a Property
+//	                        Configure through PostProcessComponentFactory and called directly on a Property - a fresh
+//	                        one, or (step.reuse) the very Property object an earlier resolution of the same text used
 //	            mode run  : every resolve is one app.NewApp().Run(app.SetConfigure(cfg), component) - a new start on
 //	                        the same Configure - observed like an e2e case
 //	            mode comp : ONE App.Run with one component per resolve; the observing processor that sits right after
@@ -81,6 +82,10 @@ type HStep struct {
 	TagText string `json:"tagtext"` // resolve: hex, the text of a value:"..." tag (on a field of type any)
 	Key     string `json:"key"`     // set / get: hex
 	Val     *Val   `json:"val"`     // set
+	// resolve, mode proc: index+1 of an earlier resolve step of the same tag text whose Property OBJECT is handed to the
+	// processor once more (a component definition that is populated again: a lazy component created a second time);
+	// 0 = a fresh Property
+	Reuse int `json:"reuse"`
 }
 
 type Val struct {
@@ -484,24 +489,36 @@ func runHist(c Case) (out Out) {
 			out.Outcome, out.Detail = "setup", err.Error()
 			return
 		}
+		type made struct {
+			comp *holderF
+			prop *component_definition.Property
+		}
+		props := map[int]made{}
 		for ix, st := range c.Steps {
 			if st.Op != "resolve" {
 				doSetGet(ix)
 				continue
 			}
-			comp := &holderF{}
-			meta := component_definition.NewMeta(comp)
-			var field *component_definition.Field
-			for _, fd := range meta.Fields {
-				if fd.StructField.Name == "F" {
-					field = fd
+			var comp *holderF
+			var prop *component_definition.Property
+			if old, ok := props[st.Reuse-1]; ok && st.Reuse > 0 && c.Steps[st.Reuse-1].TagText == st.TagText {
+				comp, prop = old.comp, old.prop // the same Property object is populated again
+			} else {
+				comp = &holderF{}
+				meta := component_definition.NewMeta(comp)
+				var field *component_definition.Field
+				for _, fd := range meta.Fields {
+					if fd.StructField.Name == "F" {
+						field = fd
+					}
 				}
+				if field == nil {
+					out.Outcome, out.Detail = "setup", "no field"
+					return
+				}
+				prop = component_definition.NewProperty(field, component_definition.PropertyTypeConfiguration, "value", unhex(st.TagText))
 			}
-			if field == nil {
-				out.Outcome, out.Detail = "setup", "no field"
-				return
-			}
-			prop := component_definition.NewProperty(field, component_definition.PropertyTypeConfiguration, "value", unhex(st.TagText))
+			props[ix] = made{comp, prop}
 			var err error
 			tagstr := prop.TagStr
 			p := hx.Guard(func() {
